@@ -88,7 +88,9 @@ func (pl *Playlist) M3u8(token string) ([]byte, error) {
 		}
 	}
 
-	return w.Bytes(), nil
+	// 返回副本：w 在函数返回时回收到 m3u8Pool，随后的请求会复用并改写它，
+	// 而调用方此时可能还在向客户端发送
+	return append([]byte(nil), w.Bytes()...), nil
 }
 
 // Segment 获取 segment
